@@ -254,6 +254,8 @@ type Run struct {
 	Fix func(dk string, constRepr string) (ans int, ok bool)
 	// Result of the root function (Start).
 	Result Val
+	// AmbientPrinter: calls of a symbolic Printer parameter emit into an ambient unit.
+	AmbientPrinter bool
 	// CallHook lets a check model library calls (constructor identities etc.).
 	CallHook func(fn *types.Func, recv Val, args []Val) (Val, bool)
 	// Inject replaces symbolic values (by provenance key) with given values.
@@ -1444,6 +1446,45 @@ func qualName(o types.Object) string {
 	return o.Name()
 }
 
+// forwardTarget: for `func f(a, b) T { return g(a, b) }` (same parameters, same order) the function g.
+func (w *Walker) forwardTarget(fn *types.Func) *types.Func {
+	decl := w.P.Decls[fn]
+	if decl == nil || decl.Body == nil || len(decl.Body.List) != 1 || decl.Recv != nil {
+		return nil
+	}
+	ret, ok := decl.Body.List[0].(*ast.ReturnStmt)
+	if !ok || len(ret.Results) != 1 {
+		return nil
+	}
+	call, ok := ret.Results[0].(*ast.CallExpr)
+	if !ok {
+		return nil
+	}
+	var params []string
+	for _, f := range decl.Type.Params.List {
+		for _, n := range f.Names {
+			params = append(params, n.Name)
+		}
+	}
+	if len(call.Args) != len(params) {
+		return nil
+	}
+	for i, a := range call.Args {
+		if id, ok := a.(*ast.Ident); !ok || id.Name != params[i] {
+			return nil
+		}
+	}
+	pkg := w.P.DeclPkg[fn]
+	if pkg == nil {
+		return nil
+	}
+	t := Callee(pkg.TypesInfo, call)
+	if t == nil || t.Type().(*types.Signature).Recv() != nil {
+		return nil
+	}
+	return t
+}
+
 // keyPkgName: the two Go generator packages are given one name in provenance
 // keys, so that sibling emitters produce identical keys (C14 compares them);
 // that their same-named helpers really are the same function is R14d's job.
@@ -1619,6 +1660,19 @@ func (r *Run) call(call *ast.CallExpr, env *Env) Val {
 	fv := r.eval(call.Fun, env)
 	f, _ := fv.(*VFunc)
 	if f == nil {
+		// a symbolic Printer (func(format string, args ...any)): its lines go to an ambient unit
+		if tv, ok := info.Types[call.Fun]; ok && !tv.IsType() && isPrinterType(tv.Type) && r.AmbientPrinter {
+			if sv, ok := r.sprintf(call, env, types.Typ[types.String]).(VStr); ok {
+				if len(r.Units) == 0 {
+					r.Units = append(r.Units, &Unit{})
+				}
+				u := r.Units[len(r.Units)-1]
+				if r.Aborted == "" {
+					u.Lines = append(u.Lines, EmLine{Segs: sv.Segs, Pos: call.Pos(), Fn: r.curFn()})
+				}
+				return VNil{}
+			}
+		}
 		args := r.args(call, env)
 		return VSym{Key: fv.key() + "(" + argKeys(args) + ")", Typ: rt}
 	}
@@ -1709,6 +1763,12 @@ func (r *Run) call(call *ast.CallExpr, env *Env) Val {
 		}
 	}
 	args := r.args(call, env)
+	// a pure forwarding wrapper (return g(params…)) is named after its target
+	if f.Recv == nil {
+		if t := r.W.forwardTarget(fn); t != nil {
+			fn = t
+		}
+	}
 	name := fn.Name()
 	if fn.Pkg() != nil && f.Recv == nil {
 		name = keyPkgName(fn.Pkg()) + "." + name
